@@ -51,7 +51,7 @@ func (st *State) specCtx(fr *Frame, where string) *SpecCtx {
 	for k, v := range fr.specVars {
 		vars[k] = v
 	}
-	sc := &SpecCtx{st: st, vars: vars, old: fr.old, where: where, fn: fr.fn.RelString(st.e.P.TPkg)}
+	sc := &SpecCtx{st: st, vars: vars, old: fr.old, where: where, fn: fr.fn.RelString(st.e.P.TPkg), fr: fr}
 	// address-taken locals: read their current content
 	for name, p := range fr.specAddrs {
 		if _, ok := vars[name]; !ok {
